@@ -57,6 +57,16 @@ class NetworkXPropertyGraphDisjoint(NetworkXPropertyGraph):
         super().__init__(graph_id=graph_id, importer=importer)
         assert isinstance(importer, NetworkXGraphImporterDisjoint)
 
+    def clone_graph(self, *, new_graph_id: str):
+        """
+        Clone a graph to a new graph_id. The clone is a graph of this backend (the inherited
+        method hands back the single-store class, whose merge_nodes then works on the wrong store).
+        :param new_graph_id:
+        :return:
+        """
+        super().clone_graph(new_graph_id=new_graph_id)
+        return NetworkXPropertyGraphDisjoint(graph_id=new_graph_id, importer=self.importer, logger=self.log)
+
     def merge_nodes(self, node_id: str, other_graph, merge_properties=None):
         """
         Not implementable in NetworkX with graphs stored separately -
